@@ -195,6 +195,13 @@ struct Req {
     stage: Stage,
 }
 
+/// identities that differ in their last byte only
+fn near_id(last: u8) -> PeerId {
+    let mut b = [0xcd; 32];
+    b[31] = last;
+    PeerId(b)
+}
+
 struct World {
     limit: usize,
     block: bool,
@@ -227,7 +234,7 @@ impl World {
             }
         };
         let rt = Arc::new(tokio::runtime::Builder::new_current_thread().enable_time().start_paused(true).build().unwrap());
-        World { limit, block, shared, services, reqs: vec![], peers: [PeerId([1; 32]), PeerId([2; 32])], rt }
+        World { limit, block, shared, services, reqs: vec![], peers: [near_id(1), near_id(2)], rt }
     }
 
     fn turn(&self) {
